@@ -27,7 +27,7 @@ pub static DEF: PropertyDef = PropertyDef {
            has them). One case in eight is run twice and the two transcripts must be identical. Non-trivial = the child delivered at least one line and consumed at least one \
            input line (play) or wrote/refused an output (compile); distinct = hash of (program, stdin, mode).",
     assumptions: &["process scheduling and pipe buffering are real, not simulated; the protocol is strict request/response, so the transcript is a function of (files, arguments, stdin bytes) - checked by the run-twice diff"],
-    runs_quick: 1600,
+    runs_quick: 4000,
     runs_thorough: 120000,
     exhaustive_note: "none (sampled programs and input scripts)",
     generate,
